@@ -18,6 +18,7 @@ import (
 	"bytes"
 	"compress/gzip"
 	"io"
+	"math"
 	"sync"
 
 	"connectrpc.com/connect"
@@ -86,6 +87,14 @@ func (p *compressionPool) compress(dst, src *bytes.Buffer) error {
 }
 
 func (p *compressionPool) decompress(dst, src *bytes.Buffer) error {
+	return p.decompressUpTo(dst, src, math.MaxInt64-1)
+}
+
+// decompressUpTo decompresses src into dst. If the decompressed data is larger
+// than limit bytes, decompression stops and a buffer-limit error is returned,
+// so that a small, highly compressible payload cannot make the transcoder
+// buffer an arbitrary amount of data.
+func (p *compressionPool) decompressUpTo(dst, src *bytes.Buffer, limit int64) error {
 	if p == nil {
 		_, err := io.Copy(dst, src)
 		return err
@@ -96,8 +105,13 @@ func (p *compressionPool) decompress(dst, src *bytes.Buffer) error {
 	if err := decomp.Reset(src); err != nil {
 		return err
 	}
-	if _, err := dst.ReadFrom(decomp); err != nil {
+	size, err := dst.ReadFrom(io.LimitReader(decomp, limit+1))
+	if err != nil {
 		return err
+	}
+	if size > limit {
+		_ = decomp.Close()
+		return bufferLimitError(limit)
 	}
 	return decomp.Close()
 }
